@@ -22,15 +22,70 @@ W = {"call": 32, "reply": 34, "signal": 4, "request": 10, "close": 6, "connect":
      "addmatch": 0, "removematch": 0, "query": 1, "driver_edge": 1, "badtype": 1, "nodest": 1, "garbage": 1}
 
 
+def frozen_step(i, op, per, closed, tk, slots, born, now, bad):
+    """a batch the daemon found all at once (see C05): calls of the batch have exactly one outcome each (C05's clause); callers
+    that were already waiting for a connection that hangs up in the batch get their NoReply; calls of the batch that were
+    delivered to connections still there open slots"""
+    from . import c05
+    c05.frozen_clause(i, op, per, tk, bad, dropped=closed)
+    closing = {s[1] for s in op[1] if s[0] == "close"} | set(closed)
+    sends = [s for s in op[1] if s[0] == "send"]
+    lines = buscheck.decode_sent([s[2] for s in sends])
+    noreply = {}
+    for to, ls in per.items():
+        for l in ls:
+            if fld(l, "t") == "3" and hexname(fld(l, "sender")) == BUS and hexname(fld(l, "err")) == ERR + "NoReply":
+                noreply.setdefault(to, []).append(int(fld(l, "rs")))
+    in_batch = {}
+    for s, l in zip(sends, lines):
+        if l is not None and fld(l, "t") == "1":
+            in_batch.setdefault(s[1], set()).add(int(fld(l, "ser")))
+    expected = {}
+    for s in list(slots):
+        if s[1] in closing and s[0] not in closing:
+            expected.setdefault(s[0], []).append(s[2])
+        if s[0] in closing or s[1] in closing:
+            slots.remove(s)
+    for c in set(noreply) | set(expected):
+        got, want = sorted(noreply.get(c, [])), sorted(expected.get(c, []))
+        extra = [x for x in got if x not in want]
+        missing = [x for x in want if x not in got]
+        if c in tk.live and c not in closing and c not in tk.stalled and (missing or any(x not in in_batch.get(c, set()) for x in extra) or len(set(got)) != len(got)):
+            bad.append((None, "step %d (frozen batch): connection %d got NoReply for serials %s; calls outstanding to connections that hung up in the batch: %s" % (i, c, got, want)))
+    for s, l in zip(sends, lines):
+        a = s[1]
+        if l is None or a in closing or a not in tk.names:
+            continue
+        d = hexname(fld(l, "dest"))
+        if d is None or d == BUS or tk.primary(d) in (None, "?"):
+            continue
+        owner = tk.primary(d)
+        me = tk.names[a]
+        if fld(l, "t") == "1" and owner not in closing and int(fld(l, "f") or 0) % 2 == 0:
+            got = len([x for x in per.get(owner, []) if hexname(fld(x, "sender")) == me and fld(x, "ser") == fld(l, "ser") and fld(x, "t") == "1"])
+            sl = (a, owner, int(fld(l, "ser")))
+            if got == 1 and sl not in slots:
+                slots.append(sl); born[sl] = now
+        elif fld(l, "t") in ("2", "3") and fld(l, "rs") not in (None, "-"):
+            sl = (owner, a, int(fld(l, "rs")))
+            if sl in slots:
+                slots.remove(sl)
+
+
 def oracle(tr, reply_timeout=None):
     bad = []
     tk = Tracker()
     slots = []          # (caller cid, callee cid, serial)
     born = {}           # slot -> the virtual time it was recorded at (histories with `advance` ops)
     now = 0
+    unsure = set()      # callers that called a name whose owner the oracle does not know
     for i, (per, closed) in enumerate(tr.steps):
         tk.before(i, tr)
         op = tr.ops[i]
+        if op[0] == "frozen":
+            frozen_step(i, op, per, closed, tk, slots, born, now, bad)
+            tk.after(i, tr)
+            continue
         sent = tr.sent(i) if op[0] == "send" else None
         actor = op[1] if op[0] == "send" else None
         noreply = {}        # caller -> list of serials for which a NoReply from the bus arrived in this step
@@ -42,6 +97,8 @@ def oracle(tr, reply_timeout=None):
         if sent and actor in tk.names and fld(sent, "t") in ("1", "2", "3", "4"):
             d = hexname(fld(sent, "dest"))
             me = tk.names[actor]
+            if d is not None and d != BUS and tk.primary(d) == "?" and fld(sent, "t") == "1":
+                unsure.add(actor)       # (who owns that name is not known - it was requested by a connection that was not reading -: whether this call opened a slot is not known either)
             if d is not None and d != BUS and tk.primary(d) != "?":
                 owner = tk.primary(d)
                 def is_copy(l):
@@ -54,7 +111,7 @@ def oracle(tr, reply_timeout=None):
                         slots.remove(s)          # used up whether or not it got through
                         if got != 1 and owner not in tk.stalled:      # (a caller that is not reading is refused the reply: queue full)
                             bad.append((None, "step %d: the requested reply %s -> %s (serial %s) was delivered %d times" % (i, me, d, rs, got)))
-                    elif got:
+                    elif got and owner not in unsure:
                         bad.append((None, "step %d: a reply from %s with serial %s reached connection %s, which has no such call outstanding to it" % (i, me, rs, owner)))
                 elif fld(sent, "t") == "1" and got == 1 and int(fld(sent, "f")) % 2 == 0:
                     s = (actor, owner, int(fld(sent, "ser")))
@@ -99,6 +156,9 @@ def run(ctx):
     # callees and callers that do not read: a call refused because the callee's queue is full opens no slot
     buscheck.run_histories(ctx, n // 2, 80, oracle, gen_kw={"weights": dict(W, stall=6, unstall=5), "max_conns": 4, "no_eavesdrop": True},
                            policy=REQUESTED, limits={"outgoing": 20000}, seed_salt=23, label="slow-readers")
+    # schedules: the daemon is held while callers write and callees hang up (see C05)
+    buscheck.run_histories(ctx, n // 2, 70, oracle, gen_kw={"weights": dict(W, frozen=20, close=2, connect=8, hello=7, reply=14), "max_conns": 5,
+                           "names": [b"com.example.A", b"org.x"]}, policy=REQUESTED, seed_salt=25, label="frozen-batches")
     # deadlines: a finite reply timeout (800 s) against a virtual clock that moves in steps of 450 s and 700 s; many calls stay
     # unanswered, callees leave while younger calls are outstanding
     from .. import actcheck, actdiff, busgen
